@@ -373,4 +373,91 @@ theorem regEvent_share_disappears (me blk : Nat) (r : RegMem) (e : Event) (pk : 
   | unknownTopic => rw [regEvent_unknownTopic, hf] at hgone; cases hgone
   | noTopics => rw [regEvent_noTopics, hf] at hgone; cases hgone
 
+
+/-! ## when a stream is processed completely -/
+
+theorem addSteps_not_panic (v : View) (owner pk : Nat) (sn : Option Nat) (len : Nat) (ms : List Member) :
+    (addSteps v owner pk sn len ms).2.isPanic = false := by
+  unfold addSteps
+  simp only []
+  split
+  · rfl
+  · split
+    · rfl
+    · split
+      · rfl
+      · split
+        · split <;> rfl
+        · split <;> rfl
+
+theorem regOutcome_panic (me blk : Nat) (r : RegMem) (e : Event) (h : e ≠ .noTopics) : (regOutcome me blk r e).isPanic = false := by
+  cases e with
+  | noTopics => exact absurd rfl h
+  | validatorAdded owner pk sn len ms => exact addSteps_not_panic _ _ _ _ _ _
+  | operatorAdded id owner pk =>
+    simp only [regOutcome, regSteps]
+    split
+    · rfl
+    · split <;> rfl
+  | operatorRemoved id => simp only [regOutcome, regSteps]; split <;> rfl
+  | validatorRemoved owner pk ops =>
+    simp only [regOutcome, regSteps]
+    split
+    · rfl
+    · split <;> rfl
+  | validatorExited owner pk ops =>
+    simp only [regOutcome, regSteps]
+    split
+    · rfl
+    · split
+      · rfl
+      · split
+        · rfl
+        · split <;> rfl
+  | clusterLiquidated owner ops => rfl
+  | clusterReactivated owner ops => rfl
+  | feeRecipientUpdated owner fee =>
+    simp only [regOutcome, regSteps]
+    split
+    · split <;> rfl
+    · rfl
+  | unparsable => rfl
+  | unknownTopic => rfl
+
+
+/-- block numbers strictly increase, starting above `m` -/
+def Increasing : Nat → List Block → Prop
+  | _, [] => True
+  | m, b :: bs => m < b.number ∧ Increasing b.number bs
+
+theorem regEvents_no_panic (me blk : Nat) (r : RegMem) (es : List Event) (h : Event.noTopics ∉ es) :
+    (regEvents me blk r es).2 = false := by
+  induction es generalizing r with
+  | nil => rfl
+  | cons e es ih =>
+    simp only [List.mem_cons, not_or] at h
+    simp only [regEvents, regOutcome_panic me blk r e (fun he => h.1 he.symm), Bool.false_eq_true, ↓reduceIte]
+    exact ih _ h.2
+
+/-- a stream with strictly increasing block numbers above the marker and without a log that lacks topics is
+    processed completely -/
+theorem run_completes (me : Nat) (n : Node) (bs : List Block) (hinc : Increasing (n.reg.db.marker.getD 0) bs)
+    (hnt : Event.noTopics ∉ flatten bs) : (run me n bs).2 = true := by
+  induction bs generalizing n with
+  | nil => rfl
+  | cons b bs ih =>
+    obtain ⟨hm, hrest⟩ := hinc
+    have hnt1 : Event.noTopics ∉ b.events := fun h => hnt (by simp [flatten, h])
+    have hnt2 : Event.noTopics ∉ flatten bs := fun h => hnt (by simp [flatten] at h ⊢; exact Or.inr h)
+    have hb := applyBlock_reg me n b
+    have hst : (regBlock me n.reg b).2 = .ok ∧ (regBlock me n.reg b).1.db.marker = some b.number := by
+      have hi : decide (n.reg.db.marker.getD 0 ≥ b.number) = false := by simp; omega
+      simp [regBlock, hi, regEvents_no_panic me b.number _ b.events hnt1, commitReg]
+    simp only [run]
+    rw [hb.2, hst.1]
+    simp only []
+    apply ih _ _ hnt2
+    rw [hb.1, hst.2]
+    exact hrest
+
 end Ssv.Registry
